@@ -548,12 +548,40 @@ func (w *World) lemmaVC(lm *Lemma, prop string) VC {
 		}
 		env.err = ""
 	}
-	t := env.tr(lm.expr)
 	name := lm.pkg + ".lemma." + lm.name
+	// goal mode: the universally quantified variables of the lemma become fresh constants (with their type invariants
+	// assumed) and the body is translated as a goal, so that inner quantifiers are skolemized / instantiated
+	var pre []string
+	body := lm.expr
+	if body.op == "forall" {
+		tmp := &Exec{g: g, w: w}
+		for i, v := range body.vars {
+			tt := env.resolveType(v.typ)
+			c := fmt.Sprintf("lm!%d!%s", i, sanitize(v.name))
+			g.declare(fmt.Sprintf("(declare-fun %s () %s)", c, g.sortOf(tt)))
+			env.vars[v.name] = typedTerm{t: c, typ: tt}
+			if inv := tmp.typeInv(tt, c); inv != "true" {
+				pre = append(pre, "(assert "+inv+")")
+			}
+		}
+		for i := 0; i < 2; i++ {
+			c := fmt.Sprintf("lgsk!%d", i)
+			g.declare(fmt.Sprintf("(declare-fun %s () Int)", c))
+			env.goalSk = append(env.goalSk, c)
+		}
+		g.goalSk = env.goalSk
+		body = body.args[0]
+	}
+	var t typedTerm
+	if len(env.goalSk) > 0 {
+		t = env.trGoal(body)
+	} else {
+		t = env.tr(body)
+	}
 	if env.err != "" || g.unsupported != "" {
 		return VC{Name: name, Prop: prop, Kind: "unsupported", Fn: name, Unsupported: env.err + g.unsupported}
 	}
-	return w.mkVC(g, name, prop, "lemma", name, lm.src, []string{"(assert (not " + t.t + "))"}, "", nil)
+	return w.mkVC(g, name, prop, "lemma", name, lm.src, append(pre, "(assert (not "+t.t+"))"), "", nil)
 }
 
 // propVCs collects every obligation of a property over the whole repository.
